@@ -124,6 +124,20 @@ impl ProcessState {
                         TransactionBehavior::Deferred
                     })
                     .map_err(RedoError::opaque_error)?;
+                let has_schema: i64 = tx
+                    .query_row(
+                        "select count(*) from sqlite_master where type='table' and name='Schema'",
+                        [],
+                        |row| row.get(0),
+                    )
+                    .map_err(|e| RedoError::wrap(e, "schema version check failed"))?;
+                if has_schema == 0 && e.runid.is_none() {
+                    // The file exists but holds no tables: whoever created it was
+                    // killed before the creating transaction committed.  We hold the
+                    // write lock (BEGIN IMMEDIATE), so finish the job instead of
+                    // demanding a manual "rm -rf .redo".
+                    create_schema(&tx)?;
+                }
                 let ver: Option<i32> = tx
                     .query_row("select version from Schema", [], |row| row.get(0))
                     .optional()
@@ -142,54 +156,7 @@ impl ProcessState {
                 db = connect(&e, &dbfile)
                     .map_err(|e| RedoError::new(format!("could not connect: {}", e)))?;
                 let tx = db.transaction().map_err(RedoError::opaque_error)?;
-                tx.execute(
-                    "create table Schema \
-                        (version int)",
-                    [],
-                )
-                .map_err(|e| RedoError::wrap(e, "failed to create table Schema"))?;
-                tx.execute(
-                    "create table Runid \
-                        (id integer primary key autoincrement)",
-                    [],
-                )
-                .map_err(|e| RedoError::wrap(e, "failed to create table Runid"))?;
-                tx.execute(
-                    "create table Files \
-                        (name not null primary key, \
-                        is_generated int, \
-                        is_override int, \
-                        checked_runid int, \
-                        changed_runid int, \
-                        failed_runid int, \
-                        stamp,
-                        csum)",
-                    [],
-                )
-                .map_err(|e| RedoError::wrap(e, "failed to create table Files"))?;
-                tx.execute(
-                    "create table Deps \
-                        (target int, \
-                        source int, \
-                        mode not null, \
-                        delete_me int, \
-                        primary key (target, source))",
-                    [],
-                )
-                .map_err(|e| RedoError::wrap(e, "failed to create table Deps"))?;
-                tx.execute(
-                    "insert into Schema (version) values (?)",
-                    params![SCHEMA_VER],
-                )
-                .map_err(|e| RedoError::wrap(e, "failed to create table Schema"))?;
-                // eat the '0' runid and File id.
-                // Because of the cheesy way t/flush-cache is implemented, leave a
-                // lot of runids available before the "first" one so that we
-                // can adjust cached values to be before the first value.
-                tx.execute("insert into Runid values (1000000000)", [])
-                    .map_err(|e| RedoError::wrap(e, "failed to insert initial Runid"))?;
-                tx.execute("insert into Files (name) values (?)", params![ALWAYS])
-                    .map_err(|e| RedoError::wrap(e, "failed to insert ALWAYS file"))?;
+                create_schema(&tx)?;
                 tx
             };
 
@@ -341,6 +308,59 @@ impl<'a> Drop for ProcessTransaction<'a> {
             let _ = self.finish_();
         }
     }
+}
+
+/// Creates the tables of an empty state database.
+fn create_schema(tx: &rusqlite::Transaction) -> Result<(), RedoError> {
+    tx.execute(
+        "create table Schema \
+            (version int)",
+        [],
+    )
+    .map_err(|e| RedoError::wrap(e, "failed to create table Schema"))?;
+    tx.execute(
+        "create table Runid \
+            (id integer primary key autoincrement)",
+        [],
+    )
+    .map_err(|e| RedoError::wrap(e, "failed to create table Runid"))?;
+    tx.execute(
+        "create table Files \
+            (name not null primary key, \
+            is_generated int, \
+            is_override int, \
+            checked_runid int, \
+            changed_runid int, \
+            failed_runid int, \
+            stamp,
+            csum)",
+        [],
+    )
+    .map_err(|e| RedoError::wrap(e, "failed to create table Files"))?;
+    tx.execute(
+        "create table Deps \
+            (target int, \
+            source int, \
+            mode not null, \
+            delete_me int, \
+            primary key (target, source))",
+        [],
+    )
+    .map_err(|e| RedoError::wrap(e, "failed to create table Deps"))?;
+    tx.execute(
+        "insert into Schema (version) values (?)",
+        params![SCHEMA_VER],
+    )
+    .map_err(|e| RedoError::wrap(e, "failed to create table Schema"))?;
+    // eat the '0' runid and File id.
+    // Because of the cheesy way t/flush-cache is implemented, leave a
+    // lot of runids available before the "first" one so that we
+    // can adjust cached values to be before the first value.
+    tx.execute("insert into Runid values (1000000000)", [])
+        .map_err(|e| RedoError::wrap(e, "failed to insert initial Runid"))?;
+    tx.execute("insert into Files (name) values (?)", params![ALWAYS])
+        .map_err(|e| RedoError::wrap(e, "failed to insert ALWAYS file"))?;
+    Ok(())
 }
 
 fn connect<P: AsRef<Path>>(env: &Env, dbfile: P) -> rusqlite::Result<Connection> {
